@@ -286,7 +286,17 @@ def run_split(c):
     unit = Fr(c["unit"])
     eps = float(unit) / 2 ** 20
     Rectangle.set_epsilon(eps, eps * eps)
-    r = mk(c["r"], c["unit"], c["region"], c["fixed"], c["hard"])
+    late = (c["fixed"] or c["hard"]) and (c["grid"][0] + c["grid"][1]) % 2 == 0
+    if late:
+        # the rectangle is built plain and flagged afterwards through the setters (as cells of fixed modules are when an allocation is
+        # initialised): its pieces inherit the attributes it has NOW
+        r = mk(c["r"], c["unit"], c["region"], False, False)
+        if c["fixed"]:
+            r.fixed = True
+        if c["hard"]:
+            r.hard = True
+    else:
+        r = mk(c["r"], c["unit"], c["region"], c["fixed"], c["hard"])
     er = L.to_fr(c["r"], unit)
     w, h = er[2] - er[0], er[3] - er[1]
     cls = []
@@ -325,6 +335,8 @@ def run_split(c):
     if len(ep) != 2 or not ((horiz and w >= h) or (vert and h >= w)):
         raise Violation("split of %s (w=%s, h=%s) gives %s: not a halving of the longer side" % (er, w, h, ep), "split-longer")
     cls.append("square" if w == h else "oblong")
+    if late:
+        cls.append("flagged-fixed-or-hard-after-construction")
     # grid
     nr, nc = c["grid"]
     g = call("rectangle_grid", r.rectangle_grid, nr, nc)
@@ -390,5 +402,6 @@ def subchecks():
         Sub("pairs", run_pair, strategy=pair_case(), n_quick=40000, n_thorough=800000, fuzz_thorough=16000,
             required=("contact", "crossing", "nested", "regions-differ", "thin-overlap", "moved-in-place", "contact-after-the-tolerance-was-changed")),
         Sub("splits", run_split, strategy=split_case(), n_quick=30000, n_thorough=600000, fuzz_thorough=12000,
-            required=("square", "oblong", "grid-pow2", "grid-inexact", "cut-inside", "cut-outside", "cut-leaves-a-thin-piece", "thin-piece-with-ratio-0")),
+            required=("square", "oblong", "grid-pow2", "grid-inexact", "cut-inside", "cut-outside", "cut-leaves-a-thin-piece", "thin-piece-with-ratio-0",
+                      "flagged-fixed-or-hard-after-construction")),
     ]
